@@ -3023,9 +3023,12 @@ evhttp_make_request(struct evhttp_connection *evcon,
 	const unsigned char *up;
 
 	/* the request-target is written verbatim into the request line: it
-	 * must not be empty or contain whitespace or control characters */
+	 * must not be empty or contain control characters (CR and LF would
+	 * start a new line).  A space is let through: servers that accept
+	 * nonconformant URIs (like ours) take the target up to the last
+	 * space of the request line. */
 	for (up = (const unsigned char *)uri; *up != '\0'; ++up) {
-		if (*up <= 0x20 || *up == 0x7f)
+		if (*up < 0x20 || *up == 0x7f)
 			break;
 	}
 	if (uri[0] == '\0' || *up != '\0') {
